@@ -89,7 +89,20 @@ async fn start(cfg: &Value, discover_delay_ms: u64) -> Running {
     let port = free_port();
     let stop = CancellationToken::new();
     let st = stop.clone();
-    let handle = tokio::spawn(async move { l.listen(("127.0.0.1", port), st).await.map_err(|e| e.to_string()) });
+    let handle = if let Some(w) = cfg["workers"].as_u64() {
+        // the listener on a runtime of its own with `w` worker threads (the clients keep the harness's runtime): what one connection
+        // does to the scheduler's threads is then not masked by the spare threads of the harness
+        let (tx, rx) = tokio::sync::oneshot::channel();
+        std::thread::spawn(move || {
+            let rt = tokio::runtime::Builder::new_multi_thread().worker_threads(w.max(1) as usize).enable_all().build().unwrap();
+            let r = rt.block_on(async move { l.listen(("127.0.0.1", port), st).await.map_err(|e| e.to_string()) });
+            let _ = tx.send(r);
+            rt.shutdown_timeout(Duration::from_millis(200));
+        });
+        tokio::spawn(async move { rx.await.unwrap_or(Err("listener thread ended".to_string())) })
+    } else {
+        tokio::spawn(async move { l.listen(("127.0.0.1", port), st).await.map_err(|e| e.to_string()) })
+    };
     // wait until the socket accepts
     for _ in 0..200 {
         if probe(port) {
@@ -315,6 +328,7 @@ async fn run_c16(sc: &Value) -> Value {
     let run = start(&sc["cfg"], 0).await;
     let proxied = sc["cfg"]["proxy"].as_str().unwrap_or("off") != "off";
     let mut parked = vec![];
+    let mut floods: Vec<tokio::task::JoinHandle<()>> = vec![];
     for h in sc["hostile"].as_array().cloned().unwrap_or_default() {
         match h.as_str().unwrap_or("") {
             "reset-burst" => {
@@ -325,6 +339,59 @@ async fn run_c16(sc: &Value) -> Value {
                 if let Some(t) = park_unread(run.port, proxied).await {
                     parked.push(t);
                 }
+            }
+            // hundreds of connected, silent peers (more than any plausible built-in cap on open connections)
+            "silent-400" => {
+                for _ in 0..400 {
+                    if let Ok(t) = Tcp::connect(SocketAddr::new("127.0.0.1".parse().unwrap(), run.port), None).await {
+                        parked.push(t);
+                    }
+                }
+            }
+            // one address uses up its budget, is refused -- and simply keeps the refused connection open
+            "refused-lingers" => {
+                let hdr = proxy_v1(label_addr("ipB"), format!("10.0.0.1:{}", run.port).parse().unwrap());
+                let local: Option<IpAddr> = if proxied { None } else { Some("127.0.0.2".parse().unwrap()) };
+                for _ in 0..(sc["cfg"]["limit"].as_u64().unwrap_or(2) + 2) {
+                    if let Ok(mut t) = Tcp::connect(SocketAddr::new("127.0.0.1".parse().unwrap(), run.port), local).await {
+                        if proxied {
+                            let _ = t.send_raw(&hdr).await;
+                        }
+                        let _ = status_exchange(&mut t, None, Duration::from_millis(300)).await;
+                        parked.push(t); // served or refused: the client never closes
+                    }
+                }
+            }
+            // three clients log in completely and then send ignorable plugin messages as fast as the socket takes them
+            "login-flood" => {
+                for i in 0..(sc["cfg"]["flooders"].as_u64().unwrap_or(3) as u128) {
+                    let port = run.port;
+                    floods.push(tokio::spawn(async move {
+                        let Ok(mut t) = Tcp::connect(SocketAddr::new("127.0.0.1".parse().unwrap(), port), None).await else { return };
+                        if proxied {
+                            let _ = t.send_raw(&proxy_v1(label_addr("ipB"), format!("10.0.0.1:{port}").parse().unwrap())).await;
+                        }
+                        let o = login(&mut t, 2, "Flooder", 20 + i, None, "success", Duration::from_millis(2000)).await;
+                        if o.login_success.is_none() {
+                            return;
+                        }
+                        let _ = t.send_frame(3, &[]).await;
+                        let mut body = Vec::new();
+                        crate::refcodec::put_string(&mut body, "minecraft:brand");
+                        body.extend(std::iter::repeat_n(b'v', 40));
+                        t.cork();
+                        loop {
+                            for _ in 0..400 {
+                                let _ = t.send_frame(2, &body).await;
+                            }
+                            if !t.uncork().await {
+                                return;
+                            }
+                            t.cork();
+                        }
+                    }));
+                }
+                tokio::time::sleep(Duration::from_millis(600)).await;
             }
             st => {
                 if let Some(t) = park(st, run.port, proxied).await {
@@ -372,6 +439,9 @@ async fn run_c16(sc: &Value) -> Value {
     let returned = tokio::time::timeout(Duration::from_millis(sc["cfg"]["timeoutMs"].as_u64().unwrap_or(3000) + 2000), run.handle).await.is_ok();
     let return_ms = stop_at.elapsed().as_millis() as u64;
     drop(parked);
+    for f in floods {
+        f.abort();
+    }
     json!({"family": "C16", "cfg": sc["cfg"], "hostile": sc["hostile"], "goodOutcome": outcome, "goodLatencyMs": latency,
            "quietOutcome": quiet_outcome, "quietLatencyMs": quiet_latency,
            "returnedAfterStop": returned, "returnMs": return_ms})
@@ -475,6 +545,21 @@ impl<S: tracing::Subscriber + for<'a> tracing_subscriber::registry::LookupSpan<'
     }
 }
 
+/// A tracing layer that spends `us` microseconds of CPU whenever a span of the given name is entered (an operator's exporter /
+/// subscriber costs something per packet): with it the server handles packets more slowly than a flooding client produces them,
+/// so that such a client's socket never runs dry.
+struct SlowSpan(String, u64);
+impl<S: tracing::Subscriber + for<'a> tracing_subscriber::registry::LookupSpan<'a>> tracing_subscriber::Layer<S> for SlowSpan {
+    fn on_enter(&self, id: &tracing::span::Id, ctx: tracing_subscriber::layer::Context<'_, S>) {
+        if ctx.span(id).map(|s| s.name() == self.0).unwrap_or(false) {
+            let t = Instant::now();
+            while (t.elapsed().as_micros() as u64) < self.1 {
+                std::hint::spin_loop();
+            }
+        }
+    }
+}
+
 // ---------------------------------------------------------------------------------------------
 // C15 (race): n connections from the same address at the same moment
 // ---------------------------------------------------------------------------------------------
@@ -514,6 +599,12 @@ pub fn main(args: &[String]) {
             "--in" => input = it.next().cloned(),
             "--out" => output = it.next().cloned(),
             "--parallel" => parallel = it.next().and_then(|s| s.parse().ok()).unwrap_or(8),
+            "--slow-span" => {
+                use tracing_subscriber::layer::SubscriberExt;
+                let spec = it.next().cloned().unwrap_or_default();
+                let (name, us) = spec.split_once(':').map(|(a, b)| (a.to_string(), b.parse().unwrap_or(30))).unwrap_or((spec.clone(), 30));
+                let _ = tracing::subscriber::set_global_default(tracing_subscriber::registry().with(SlowSpan(name, us)));
+            }
             "--stall-enqueue-ms" => {
                 use tracing_subscriber::layer::SubscriberExt;
                 let ms = it.next().and_then(|s| s.parse().ok()).unwrap_or(50);
